@@ -45,7 +45,9 @@ func init() {
 			"(b) structure-aware mutants of valid seeds (corpus blocks, their transactions/headers/outputs/addresses/scripts, messages built with the NewMsg* constructors, hex test vectors of the repository; every valid item is also fed as-is to every entry point) in 13 random classes " +
 			"(truncate at item boundary, inflate length to 2^16/2^31/2^63, wrap N in {1,16,255,256,257,1000} arrays/tags/maps, tag swap, type confusion, duplicate map key, bad indefinite string, misplaced break, arity, integer edge, header re-form, splice, raw) " +
 			"plus deterministic sweeps over the outer three levels of each seed (every arity, every item type-confused, every length field inflated) and nesting 12000..30000 deep in six container kinds, " +
-			"(c) the committed go-fuzz corpora. A case is non-trivial when the input is non-empty and, for (b), differs from its seed; distinct by (entry point, message type, sha256(input)). " +
+			"and decodable-but-inconsistent blocks (witness set / body dropped or duplicated, auxiliary-data and invalid-transaction indexes beyond the transaction count, Byron input/witness counts; as is and with the header body hash recomputed), " +
+			"(c) the committed go-fuzz corpora. After every successful decode through a ledger entry point (blocks incl. WithOffsets, headers, transactions, bodies, outputs) and a message decoder the returned value is walked through the ledger/common interfaces inside the same guard (Header, Transactions, per tx Hash/Inputs/Outputs/Fee/TTL/Certificates/Withdrawals/Metadata/AuxiliaryData/Consumed/Produced/Witnesses/Cbor ...; no Utxorpc/ToPlutusData): a value that cannot be read is a violation keyed value-walk:<accessor>. " +
+			" A case is non-trivial when the input is non-empty and, for (b), differs from its seed; distinct by (entry point, message type, sha256(input)). " +
 			"Panic and termination are judged on every call; allocation (TotalAlloc delta <= 4096*len*(1+depth)+8MiB) on the calls of a serial pass that holds all inflate / nesting cases.",
 		MinNontrivial:   8000,
 		Assumptions:     []string{"runtime.MemStats.TotalAlloc is exact for a single running goroutine", "cborx item boundaries are correct (independent reader)", "a decoder that is still running after 90 s alone in a fresh process on an input <= 1 MiB has stalled"},
@@ -68,6 +70,7 @@ type slot struct {
 	aux     uint
 	gen     string
 	flagged bool
+	walker  *walker
 	counts  map[string]int
 }
 
@@ -92,7 +95,7 @@ type mon struct {
 	maxDelta   uint64
 }
 
-func (m *mon) acquire() *slot { return <-m.slots }
+func (m *mon) acquire() *slot  { return <-m.slots }
 func (m *mon) release(s *slot) { m.slots <- s }
 
 func (m *mon) flushCounts() {
@@ -111,7 +114,49 @@ type outcome struct {
 	val      any
 	stack    string
 	err      error
-	alloc    uint64
+	alloc    uint64 // decode + walk
+	// value walk
+	walked    bool   // the decoder returned a value and the walk was started
+	accessor  string // accessor being called when the walk ended abnormally
+	allocWalk uint64
+	walkCalls int
+}
+
+// runCall makes the one call of a case: the decoder and, when it returned a
+// value without error, the walk over that value – both inside the same
+// recover guard. measure brackets it with MemStats (serial pass only).
+func runCall(e *entry, in []byte, aux uint, measure bool, w *walker) (o outcome) {
+	var m0, mm, m1 runtime.MemStats
+	if measure {
+		runtime.ReadMemStats(&m0)
+	}
+	o.panicked, o.val, o.stack = core.Safely(func() {
+		if e.callV == nil {
+			o.err = e.call(in, aux)
+			return
+		}
+		v, err := e.callV(in, aux)
+		o.err = err
+		if err != nil {
+			return
+		}
+		if measure {
+			runtime.ReadMemStats(&mm)
+		}
+		o.walked = true
+		walkValue(v, w)
+		w.cur.Store(nil)
+	})
+	if measure {
+		runtime.ReadMemStats(&m1)
+		o.alloc = m1.TotalAlloc - m0.TotalAlloc
+		if o.walked {
+			o.allocWalk = m1.TotalAlloc - mm.TotalAlloc
+		}
+	}
+	o.accessor = w.accessor()
+	o.walkCalls = w.calls
+	return o
 }
 
 // journalInput writes the journal line for a case. Small inputs go in as hex,
@@ -131,18 +176,10 @@ func (m *mon) journalInput(s *slot, e *entry, in []byte, aux uint, gen string) {
 func (m *mon) exec(s *slot, e *entry, in []byte, aux uint, gen string, measure bool) outcome {
 	m.journalInput(s, e, in, aux, gen)
 	s.mu.Lock()
-	s.busy, s.start, s.e, s.in, s.aux, s.gen, s.flagged = true, time.Now(), e, in, aux, gen, false
+	w := &walker{}
+	s.busy, s.start, s.e, s.in, s.aux, s.gen, s.flagged, s.walker = true, time.Now(), e, in, aux, gen, false, w
 	s.mu.Unlock()
-	var o outcome
-	var m0, m1 runtime.MemStats
-	if measure {
-		runtime.ReadMemStats(&m0)
-	}
-	o.panicked, o.val, o.stack = core.Safely(func() { o.err = e.call(in, aux) })
-	if measure {
-		runtime.ReadMemStats(&m1)
-		o.alloc = m1.TotalAlloc - m0.TotalAlloc
-	}
+	o := runCall(e, in, aux, measure, w)
 	s.mu.Lock()
 	s.busy = false
 	flagged := s.flagged
@@ -297,6 +334,10 @@ func (m *mon) judge(s *slot, e *entry, in []byte, aux uint, gen, desc string, o 
 	case o.err == nil:
 		s.counts["outcome_accept"]++
 		s.counts["accept_"+gen]++
+		if o.walked {
+			s.counts["values_walked"]++
+			s.counts["walk_accessor_calls"] += o.walkCalls
+		}
 	default:
 		s.counts["outcome_reject"]++
 	}
@@ -331,11 +372,38 @@ func (m *mon) reportPanic(e *entry, in []byte, aux uint, gen, desc string, o out
 	}
 	key := fmt.Sprintf("C02:%s:panic:%s@%s", e.keyName(aux), class, site)
 	w := witness(e, in, aux, gen, desc)
+	if o.walked {
+		// the decoder had already returned (value, nil): the value cannot be read
+		acc := o.accessor
+		if acc == "" {
+			acc = "unknown"
+		}
+		w["accessor"] = acc
+		w["panic"] = fmt.Sprint(o.val)
+		w["panic_site"] = site
+		w["innermost_frame"] = inner
+		w["stack"] = trimStack(o.stack)
+		m.c.Violation(fmt.Sprintf("C02:%s:value-walk:%s", e.keyName(aux), lastAccessor(acc)),
+			fmt.Sprintf("%s accepted a %d-byte input (%s) but the returned value cannot be read: %s panicked: %v [at %s]", e.keyName(aux), len(in), gen, acc, o.val, inner), w)
+		return
+	}
 	w["panic"] = fmt.Sprint(o.val)
 	w["panic_site"] = site
 	w["innermost_frame"] = inner
 	w["stack"] = trimStack(o.stack)
 	m.c.Violation(key, fmt.Sprintf("%s panicked on a %d-byte input (%s): %v [at %s]", e.keyName(aux), len(in), gen, o.val, inner), w)
+}
+
+// lastAccessor: "Transactions[].Outputs[].Address.String" -> "Address.String"
+// would still be many keys; the key carries the outermost accessor that is not
+// an index step, i.e. the first path element ("Transactions", "Header", ...),
+// plus the final one when different.
+func lastAccessor(path string) string {
+	parts := strings.Split(strings.ReplaceAll(path, "[]", ""), ".")
+	if len(parts) == 1 {
+		return parts[0]
+	}
+	return parts[0] + "." + parts[len(parts)-1]
 }
 
 func panicClass(v any) string {
@@ -428,11 +496,13 @@ type soloCase struct {
 	Mode  string `json:"mode"`
 }
 type soloResult struct {
-	Done     bool   `json:"done"`
-	Panicked bool   `json:"panicked"`
-	Panic    string `json:"panic"`
-	Alloc    uint64 `json:"alloc"`
-	Ms       int64  `json:"ms"`
+	Done      bool   `json:"done"`
+	Panicked  bool   `json:"panicked"`
+	Panic     string `json:"panic"`
+	Alloc     uint64 `json:"alloc"`
+	AllocWalk uint64 `json:"alloc_walk"`
+	Accessor  string `json:"accessor"`
+	Ms        int64  `json:"ms"`
 }
 
 // soloMain is what a fresh process started by runSolo does: one call, alone.
@@ -463,14 +533,11 @@ func soloMain(c *core.Ctx, path string) {
 	_ = e.call([]byte{0x80}, sc.Aux)
 	runtime.GC()
 	var res soloResult
-	var m0, m1 runtime.MemStats
 	t0 := time.Now()
-	runtime.ReadMemStats(&m0)
-	p, v, _ := core.Safely(func() { _ = e.call(in, sc.Aux) })
-	runtime.ReadMemStats(&m1)
-	res.Done, res.Panicked, res.Alloc, res.Ms = true, p, m1.TotalAlloc-m0.TotalAlloc, time.Since(t0).Milliseconds()
-	if p {
-		res.Panic = fmt.Sprint(v)
+	o := runCall(e, in, sc.Aux, true, &walker{})
+	res.Done, res.Panicked, res.Alloc, res.AllocWalk, res.Accessor, res.Ms = true, o.panicked, o.alloc, o.allocWalk, o.accessor, time.Since(t0).Milliseconds()
+	if o.panicked {
+		res.Panic = fmt.Sprint(o.val)
 	}
 	out, _ := json.Marshal(res)
 	_ = os.WriteFile(path+".out", out, 0o644)
@@ -550,14 +617,10 @@ func runOne(spec string) {
 		if e.name != parts[0] {
 			continue
 		}
-		var m0, m1 runtime.MemStats
 		_ = e.call([]byte{0x80}, uint(aux))
-		runtime.ReadMemStats(&m0)
-		var err error
-		p, v, st := core.Safely(func() { err = e.call(in, uint(aux)) })
-		runtime.ReadMemStats(&m1)
-		site, inner, _ := panicSite(st)
-		fmt.Printf("ONE %s aux=%d len=%d panicked=%v val=%v class=%s site=%s inner=%s err=%v alloc=%d\n", e.name, aux, len(in), p, v, panicClass(v), site, inner, err, m1.TotalAlloc-m0.TotalAlloc)
+		o := runCall(e, in, uint(aux), true, &walker{})
+		site, inner, _ := panicSite(o.stack)
+		fmt.Printf("ONE %s aux=%d len=%d panicked=%v val=%v class=%s site=%s inner=%s err=%v alloc=%d walked=%v accessor=%q walk_calls=%d alloc_walk=%d\n", e.name, aux, len(in), o.panicked, o.val, panicClass(o.val), site, inner, o.err, o.alloc, o.walked, o.accessor, o.walkCalls, o.allocWalk)
 		return
 	}
 	fmt.Println("ONE: no such entry", parts[0])
@@ -580,10 +643,13 @@ func (m *mon) watchdog() {
 			var e *entry
 			var in []byte
 			var aux uint
-			var gen string
+			var gen, acc string
 			if suspect {
 				s.flagged = true
 				e, in, aux, gen = s.e, s.in, s.aux, s.gen
+				if s.walker != nil {
+					acc = s.walker.accessor()
+				}
 			}
 			s.mu.Unlock()
 			if !suspect {
@@ -598,7 +664,12 @@ func (m *mon) watchdog() {
 				w := witness(e, in, aux, gen, "")
 				w["goroutine_dump"] = dump
 				w["solo_timeout_s"] = stallSolo.Seconds()
-				m.c.Violation(fmt.Sprintf("C02:%s:stall", e.keyName(aux)),
+				key := fmt.Sprintf("C02:%s:stall", e.keyName(aux))
+				if acc != "" {
+					w["accessor"] = acc
+					key = fmt.Sprintf("C02:%s:value-walk:stall", e.keyName(aux))
+				}
+				m.c.Violation(key,
 					fmt.Sprintf("%s did not return on a %d-byte input: > %v inside the run and > %v alone in a fresh process; the goroutine dump shows the decoder frames", e.keyName(aux), len(in), stallSuspect, stallSolo), w)
 				// the worker goroutine cannot be cancelled: end the run here with
 				// what was observed (the result file carries the violation)
@@ -798,6 +869,19 @@ func run(c *core.Ctx) {
 				}
 			}
 		}
+		// (b, inconsistent blocks) decodable blocks whose parallel parts do not fit
+		if e.blk > 0 {
+			n := 0
+			for _, sd := range pl.m["block:"+blockTypeNames[e.blk-1]] {
+				if len(sd.b) > 100000 || strings.HasSuffix(sd.name, "/trimmed") {
+					continue
+				}
+				for _, bm := range inconsistentBlocks(uint(e.blk-1), sd.b, c.Thorough()) {
+					par = append(par, caseSpec{e: e, gen: 'X', idx: n, data: bm.b, desc: sd.name + ": " + bm.desc})
+					n++
+				}
+			}
+		}
 		// (c) fuzz corpora: every file against every entry point
 		for fi, f := range fuzz {
 			if e.auxN > 0 {
@@ -830,7 +914,7 @@ func run(c *core.Ctx) {
 		s.counts["alloc_measured"]++
 		s.mu.Unlock()
 		if !o.panicked {
-			m.judgeAlloc(cs.e, in, aux, gen, desc, o.alloc)
+			m.judgeAlloc(cs.e, in, aux, gen, desc, o)
 		}
 	}
 	m.release(s)
@@ -870,7 +954,9 @@ func (m *mon) warmup() {
 	s := m.acquire()
 	defer m.release(s)
 	for _, e := range m.entries {
-		for _, in := range [][]byte{{0x80}, {0xa0}, {0x82, 0x00, 0x80}} {
+		for _, in := range [][]byte{{0x80}, {0xa0}, {0x82, 0x00, 0x80}, {0xf6}, {0xf7}, {0xf6, 0x00},
+			// a block whose header is null: [null, [], [], {}] and [null, [], [], {}, []]
+			{0x83, 0xf6, 0xf6, 0xf6}, {0x84, 0xf6, 0x80, 0x80, 0xa0}, {0x85, 0xf6, 0x80, 0x80, 0xa0, 0x80}} {
 			o := m.exec(s, e, in, 0, "warmup", false)
 			m.judge(s, e, in, 0, "warmup", "", o, true)
 		}
@@ -998,6 +1084,8 @@ func (m *mon) makeCase(cs caseSpec, anyPool [][]byte) (in []byte, aux uint, gen,
 		return cs.data, cs.aux, "b_systematic", cs.desc, true
 	case 'I':
 		return cs.data, cs.aux, "b_inflate", cs.desc, true
+	case 'X':
+		return cs.data, cs.aux, "b_inconsistent", cs.desc, true
 	case 'D':
 		k := deepKinds[cs.idx%len(deepKinds)]
 		in = append(append(rep(k.pre, k.n), 0x00), rep(k.post, k.n)...)
@@ -1071,7 +1159,8 @@ func docFor(b []byte) *doc {
 
 func docFor2(b []byte) *doc { return newDoc(b) }
 
-func (m *mon) judgeAlloc(e *entry, in []byte, aux uint, gen, desc string, delta uint64) {
+func (m *mon) judgeAlloc(e *entry, in []byte, aux uint, gen, desc string, o outcome) {
+	delta := o.alloc
 	bound := allocBound(in)
 	over := float64(0)
 	if delta > allocB {
@@ -1103,6 +1192,13 @@ func (m *mon) judgeAlloc(e *entry, in []byte, aux uint, gen, desc string, delta 
 	w["alloc_bytes_in_run"] = delta
 	w["alloc_bytes_alone"] = res.Alloc
 	w["bound"] = bound
+	if res.AllocWalk > res.Alloc/2 {
+		// most of it was allocated while reading the value the decoder returned
+		w["alloc_bytes_walk_alone"] = res.AllocWalk
+		m.c.Violation(fmt.Sprintf("C02:%s:value-walk:alloc", e.keyName(aux)),
+			fmt.Sprintf("%s accepted a %d-byte input; reading the returned value allocated %d bytes (decode + walk %d, alone in a fresh process); bound %d", e.keyName(aux), len(in), res.AllocWalk, res.Alloc, bound), w)
+		return
+	}
 	m.c.Violation(fmt.Sprintf("C02:%s:alloc", e.keyName(aux)),
 		fmt.Sprintf("%s allocated %d bytes (%d when re-measured alone in a fresh process) for a %d-byte input of nesting depth %d; bound %d*len*(1+depth)+%d = %d", e.keyName(aux), delta, res.Alloc, len(in), nestingDepth(in), allocA, allocB, bound), w)
 }
